@@ -5,14 +5,14 @@ EXTENDS ObjectsImpl, TraceBase
 Exp(e) ==
    CASE e.op = "empty" -> EmptyObj(e.tree)
      [] e.op = "valid" -> ValidObj(e.tree)
-     [] e.op = "rect" -> RectObj(e.tree)
-     [] e.op = "center2" -> Center2Obj(e.tree)
+     [] e.op = "rect" -> IF EmptyObj(e.tree) THEN <<"no rectangle: the object is empty">> ELSE RectObj(e.tree)
+     [] e.op = "center2" -> IF EmptyObj(e.tree) THEN <<"no centre: the object is empty">> ELSE Center2Obj(e.tree)
      [] e.op = "npoints" -> NumPointsObj(e.tree)
 Pred(e) ==
    CASE e.op = "empty" -> <<EmptyL2o(e.tree), "Empty">>
      [] e.op = "valid" -> <<ValidL2o(e.tree), ValidSiteL2o(e.tree)>>
-     [] e.op = "rect" -> <<RectL2o(e.tree), "collection.go:parseInitRectIndex/series.go:processPoints">>
-     [] e.op = "center2" -> <<IF OKind(e.tree) \in {"Point","SimplePoint"} THEN Center2Obj(e.tree)
+     [] e.op = "rect" -> <<IF EmptyObj(e.tree) THEN <<>> ELSE RectL2o(e.tree), "collection.go:parseInitRectIndex/series.go:processPoints">>
+     [] e.op = "center2" -> <<IF EmptyObj(e.tree) THEN <<>> ELSE IF OKind(e.tree) \in {"Point","SimplePoint"} THEN Center2Obj(e.tree)
                               ELSE LET r == RectL2o(e.tree) IN <<r[1]+r[3], r[2]+r[4]>>, "Center">>
      [] e.op = "npoints" -> <<NumPointsObj(e.tree), "NumPoints">>
 Judge == pos > 0 =>
